@@ -209,4 +209,283 @@ theorem go_validateParsable_closed (e : String) (gs : List GTraitDesc) :
           · simp [hg, hne]
     · rw [if_neg hp, if_neg hp]
 
+
+/-! ## the closed form and the model's `parsableUnique` -/
+
+/-- the (text, owner name) pairs the function walks, in order -/
+def pairsOfInsts (xs : List GTraitInstance) : List (String × String) := xs.map (fun x => (x.value, x.OwningValue.Name))
+def pairsOf (gs : List GTraitDesc) : List (String × String) :=
+  (gs.filter (·.Parsable)).flatMap (fun g => pairsOfInsts g.Traits)
+
+/-- the walk on the pairs alone -/
+def scan (m : SMap) : List (String × String) → SMap × Bool
+  | [] => (m, true)
+  | p :: r =>
+    match Go.kvGet m p.1 with
+    | some o => if o != p.2 then (m, false) else scan (Go.kvSet m p.1 p.2) r
+    | none => scan (Go.kvSet m p.1 p.2) r
+
+theorem scan_append (m : SMap) (a b : List (String × String)) :
+    scan m (a ++ b) = if (scan m a).2 then scan (scan m a).1 b else ((scan m a).1, false) := by
+  induction a generalizing m with
+  | nil => simp [scan]
+  | cons p a ih =>
+    simp only [List.cons_append, scan]
+    rcases Option.eq_none_or_eq_some (Go.kvGet m p.1) with hg | ⟨o, hg⟩
+    · simp only [hg, ih]
+    · by_cases hne : (o != p.2) = true
+      · simp [hg, hne]
+      · simp only [hg, hne, if_false, ih, Bool.false_eq_true]
+
+theorem vpInsts_scan (m : SMap) (xs : List GTraitInstance) :
+    (vpInsts m xs).1 = (scan m (pairsOfInsts xs)).1 ∧ (vpInsts m xs).2.2 = (scan m (pairsOfInsts xs)).2 := by
+  induction xs generalizing m with
+  | nil => simp [vpInsts, scan, pairsOfInsts]
+  | cons x xs ih =>
+    simp only [vpInsts, pairsOfInsts, List.map_cons, scan, vpStep]
+    cases hg : Go.kvGet m x.value with
+    | none => simpa [pairsOfInsts] using ih _
+    | some o =>
+      by_cases hne : (o != x.OwningValue.Name) = true
+      · simp [hne]
+      · simpa [hne, pairsOfInsts] using ih _
+
+theorem vpDescs_scan (m : SMap) (gs : List GTraitDesc) :
+    (vpDescs m gs).2.1 = (scan m (pairsOf gs)).1 ∧ (vpDescs m gs).2.2 = (scan m (pairsOf gs)).2 := by
+  induction gs generalizing m with
+  | nil => simp [vpDescs, scan, pairsOf]
+  | cons t ts ih =>
+    by_cases hp : t.Parsable = true
+    · have hpo : pairsOf (t :: ts) = pairsOfInsts t.Traits ++ pairsOf ts := by simp [pairsOf, hp]
+      rw [hpo, scan_append]
+      obtain ⟨h1, h2⟩ := vpInsts_scan m t.Traits
+      by_cases hok : (vpInsts m t.Traits).2.2 = true
+      · have := ih (vpInsts m t.Traits).1
+        simp only [vpDescs, hp, hok, if_true, ← h2, ← h1]
+        exact this
+      · simp only [vpDescs, hp, hok, if_true, ← h2, ← h1]
+        simp
+    · have hpo : pairsOf (t :: ts) = pairsOf ts := by simp [pairsOf, hp]
+      rw [hpo]
+      simpa [vpDescs, hp] using ih m
+
+theorem kvGet_kvSet (m : SMap) (k v k' : String) :
+    Go.kvGet (Go.kvSet m k v) k' = if k = k' then some v else Go.kvGet m k' := by
+  induction m with
+  | nil => simp [Go.kvSet, Go.kvGet]
+  | cons p m ih =>
+    obtain ⟨a, b⟩ := p
+    by_cases hak : a = k
+    · subst hak
+      by_cases hkk : a = k' <;> simp [Go.kvSet, Go.kvGet, hkk]
+    · by_cases hkk : k = k'
+      · subst hkk
+        simp [Go.kvSet, Go.kvGet, hak, ih]
+      · by_cases hak' : a = k'
+        · subst hak'
+          simp [Go.kvSet, Go.kvGet, hak, hkk]
+        · simp [Go.kvSet, Go.kvGet, hak, hkk, hak', ih]
+
+/-- no text under two different owners -/
+def Consistent (ps : List (String × String)) : Prop := ∀ p ∈ ps, ∀ q ∈ ps, p.1 = q.1 → p.2 = q.2
+
+instance (ps : List (String × String)) : Decidable (Consistent ps) := by unfold Consistent; exact inferInstance
+
+theorem scan_ok_iff (m : SMap) (ps : List (String × String)) :
+    (scan m ps).2 = true ↔ (∀ p ∈ ps, ∀ o, Go.kvGet m p.1 = some o → o = p.2) ∧ Consistent ps := by
+  induction ps generalizing m with
+  | nil => simp [scan, Consistent]
+  | cons p ps ih =>
+    have key : (scan (Go.kvSet m p.1 p.2) ps).2 = true ↔
+        (∀ q ∈ ps, q.1 = p.1 → q.2 = p.2) ∧ (∀ q ∈ ps, ∀ o, Go.kvGet m q.1 = some o → q.1 ≠ p.1 → o = q.2) ∧ Consistent ps := by
+      rw [ih]
+      simp only [kvGet_kvSet]
+      constructor
+      · rintro ⟨h1, h2⟩
+        refine ⟨fun q hq he => ?_, fun q hq o ho hne => ?_, h2⟩
+        · exact (h1 q hq p.2 (by simp [he])).symm
+        · exact h1 q hq o (by simp [Ne.symm hne, ho])
+      · rintro ⟨h1, h2, h3⟩
+        refine ⟨fun q hq o ho => ?_, h3⟩
+        by_cases he : p.1 = q.1
+        · simp [he] at ho; rw [← ho]; exact (h1 q hq he.symm).symm
+        · simp [he] at ho; exact h2 q hq o ho (Ne.symm he)
+    have cons_iff : Consistent (p :: ps) ↔ (∀ q ∈ ps, q.1 = p.1 → q.2 = p.2) ∧ Consistent ps := by
+      unfold Consistent
+      constructor
+      · intro h
+        exact ⟨fun q hq he => h q (by simp [hq]) p (by simp) he,
+          fun a ha b hb => h a (by simp [ha]) b (by simp [hb])⟩
+      · rintro ⟨h1, h2⟩ a ha b hb hab
+        simp only [List.mem_cons] at ha hb
+        rcases ha with rfl | ha <;> rcases hb with rfl | hb
+        · rfl
+        · exact (h1 b hb hab.symm).symm
+        · exact h1 a ha hab
+        · exact h2 a ha b hb hab
+    simp only [scan]
+    cases hg : Go.kvGet m p.1 with
+    | none =>
+      simp only [key, cons_iff, List.mem_cons, forall_eq_or_imp, hg]
+      constructor
+      · rintro ⟨h1, h2, h3⟩
+        refine ⟨⟨by simp, fun q hq o ho => ?_⟩, h1, h3⟩
+        by_cases he : q.1 = p.1
+        · rw [he, hg] at ho; cases ho
+        · exact h2 q hq o ho he
+      · rintro ⟨⟨_, h2⟩, h1, h3⟩
+        exact ⟨h1, fun q hq o ho _ => h2 q hq o ho, h3⟩
+    | some o =>
+      by_cases hne : o = p.2
+      · have hb : (o != p.2) = false := by simp [hne]
+        simp only [hb, Bool.false_eq_true, if_false, key, cons_iff, List.mem_cons, forall_eq_or_imp, hg]
+        constructor
+        · rintro ⟨h1, h2, h3⟩
+          refine ⟨⟨by simp [hne], fun q hq o' ho => ?_⟩, h1, h3⟩
+          by_cases he : q.1 = p.1
+          · rw [he, hg] at ho; cases ho; rw [hne]; exact (h1 q hq he).symm
+          · exact h2 q hq o' ho he
+        · rintro ⟨⟨_, h2⟩, h1, h3⟩
+          exact ⟨h1, fun q hq o ho _ => h2 q hq o ho, h3⟩
+      · have hb : (o != p.2) = true := by simp [hne]
+        simp only [hb, if_true, Bool.false_eq_true, false_iff, List.mem_cons, forall_eq_or_imp, hg]
+        rintro ⟨⟨h0, _⟩, _⟩
+        exact hne (h0 o rfl)
+
+/-- the error of the translated function, in words: some constant text of a parsable trait stands under two
+different enum values -/
+theorem go_validateParsable_consistent (e : String) (gs : List GTraitDesc) :
+    ∃ gs', validateParsableTraits e gs = pure (gs', if decide (Consistent (pairsOf gs)) then none else some validateParsableTraits_err1) := by
+  refine ⟨(vpDescs [] gs).1, ?_⟩
+  rw [go_validateParsable_closed]
+  have h := (scan_ok_iff [] (pairsOf gs))
+  rw [← (vpDescs_scan [] gs).2] at h
+  have h' : (vpDescs [] gs).2.2 = true ↔ Consistent (pairsOf gs) := by
+    rw [h]; simp [Go.kvGet]
+  by_cases hc : Consistent (pairsOf gs)
+  · simp [hc, h'.mpr hc]
+  · have : (vpDescs [] gs).2.2 = false := by
+      cases hv : (vpDescs [] gs).2.2
+      · rfl
+      · exact absurd (h'.mp hv) hc
+    simp [hc, this]
+
+
+/-- the rows `parsableUnique` compares -/
+def modelRows (first : Genum.Value) (ts : List Genum.TraitDesc) : List (String × String) :=
+  (ts.filter (·.parsable)).flatMap (fun t =>
+    t.rows.map (fun r => (rowText t.ty (r.owner.name == first.name) r.dyn.v, r.owner.name)))
+
+theorem parsableUnique_iff (first : Genum.Value) (ts : List Genum.TraitDesc) :
+    parsableUnique first ts = true ↔ Consistent (modelRows first ts) := by
+  unfold parsableUnique Consistent modelRows
+  simp only [List.all_eq_true, Bool.or_eq_true, Bool.not_eq_true', beq_eq_false_iff_ne, beq_iff_eq]
+  constructor
+  · intro h p hp q hq he
+    rcases h p hp q hq with h1 | h1
+    · exact absurd he h1
+    · exact h1
+  · intro h p hp q hq
+    by_cases he : p.1 = q.1
+    · exact Or.inr (h p hp q hq he)
+    · exact Or.inl he
+
+theorem rows_pairs {first : Genum.Value} {ty : String} {rows : List TraitRow} {xs : List GTraitInstance}
+    (h : All₂ (RowRel first ty) rows xs) :
+    rows.map (fun r => (rowText ty (r.owner.name == first.name) r.dyn.v, r.owner.name)) = pairsOfInsts xs := by
+  induction h with
+  | nil => rfl
+  | cons hab _ ih =>
+    simp only [List.map_cons, pairsOfInsts] at ih ⊢
+    rw [ih, hab.text, hab.owner]
+    rfl
+
+theorem modelRows_pairs {first : Genum.Value} {ts : List Genum.TraitDesc} {gs : List GTraitDesc}
+    (h : All₂ (DescRel first) ts gs) : modelRows first ts = pairsOf gs := by
+  induction h with
+  | nil => rfl
+  | @cons t g ts gs hab _ ih =>
+    unfold modelRows pairsOf at ih ⊢
+    simp only [List.filter_cons, hab.parsable]
+    by_cases hp : t.parsable = true
+    · simp only [hp, if_true, List.flatMap_cons, ih, rows_pairs hab.rows]
+    · simp only [hp, if_false, ih, Bool.false_eq_true]
+
+theorem vpInsts_rel {first : Genum.Value} {ty : String} {rows : List TraitRow} {xs : List GTraitInstance}
+    (h : All₂ (RowRel first ty) rows xs) (m : SMap) : All₂ (RowRel first ty) rows (vpInsts m xs).2.1 := by
+  induction h generalizing m with
+  | nil => exact .nil
+  | @cons r x rows xs hab hrest ih =>
+    unfold vpInsts vpStep
+    rcases Option.eq_none_or_eq_some (Go.kvGet m x.value) with hg | ⟨o, hg⟩
+    · simp only [hg]
+      exact .cons hab (ih _)
+    · by_cases hne : (o != x.OwningValue.Name) = true
+      · simp only [hg, hne, if_true]
+        exact .cons hab hrest
+      · simp only [hg, hne, if_false, Bool.false_eq_true]
+        exact .cons ⟨hab.owner, hab.text⟩ (ih _)
+
+theorem vpDescs_rel {first : Genum.Value} {ts : List Genum.TraitDesc} {gs : List GTraitDesc}
+    (h : All₂ (DescRel first) ts gs) (m : SMap) : All₂ (DescRel first) ts (vpDescs m gs).1 := by
+  induction h generalizing m with
+  | nil => exact .nil
+  | @cons t g ts gs hab hrest ih =>
+    unfold vpDescs
+    by_cases hp : g.Parsable = true
+    · by_cases hok : (vpInsts m g.Traits).2.2 = true
+      · rw [if_pos hp, if_pos hok]
+        exact .cons ⟨hab.name, hab.parsable, hab.fam, vpInsts_rel hab.rows m⟩ (ih _)
+      · rw [if_pos hp, if_neg hok]
+        exact .cons ⟨hab.name, hab.parsable, hab.fam, vpInsts_rel hab.rows m⟩ hrest
+    · rw [if_neg hp]
+      exact .cons hab (ih _)
+
+/-- `validateParsableTraits` on the code's descriptors of the model's traits: no panic; it returns its error exactly
+when the model's `parsableUnique` fails; the descriptors it leaves behind are still the model's (it only marks
+repeated Parse keys) -/
+theorem go_validateParsable_eq (first : Genum.Value) (ts : List Genum.TraitDesc) (gs : List GTraitDesc)
+    (h : All₂ (DescRel first) ts gs) (e : String) :
+    ∃ gs', validateParsableTraits e gs
+        = pure (gs', if parsableUnique first ts then none else some validateParsableTraits_err1) ∧
+      All₂ (DescRel first) ts gs' := by
+  refine ⟨(vpDescs [] gs).1, ?_, vpDescs_rel h []⟩
+  obtain ⟨gs', hgs⟩ := go_validateParsable_consistent e gs
+  have h1 : gs' = (vpDescs [] gs).1 := by
+    have := go_validateParsable_closed e gs
+    rw [this] at hgs
+    exact (congrArg Prod.fst (Except.ok.inj hgs)).symm
+  rw [hgs, h1, ← modelRows_pairs h]
+  by_cases hu : parsableUnique first ts = true
+  · simp [hu, (parsableUnique_iff first ts).mp hu]
+  · have : ¬ Consistent (modelRows first ts) := fun hc => hu ((parsableUnique_iff first ts).mpr hc)
+    simp [hu, this]
+
+/-- headline of C12 (`parsable_unique_or_error`) for the translated code: when a constant text of a parsable trait
+stands on the lines of two different enum values, the translated `validateParsableTraits` returns its error -/
+theorem go_parsable_unique_or_error (first : Genum.Value) (ts : List Genum.TraitDesc) (gs : List GTraitDesc)
+    (h : All₂ (DescRel first) ts gs) (e : String)
+    (t t' : Genum.TraitDesc) (ht : t ∈ ts) (ht' : t' ∈ ts) (hp : t.parsable = true) (hp' : t'.parsable = true)
+    (r r' : TraitRow) (hr : r ∈ t.rows) (hr' : r' ∈ t'.rows)
+    (htext : rowText t.ty (r.owner.name == first.name) r.dyn.v = rowText t'.ty (r'.owner.name == first.name) r'.dyn.v)
+    (hown : r.owner.name ≠ r'.owner.name) :
+    ∃ gs', validateParsableTraits e gs = pure (gs', some validateParsableTraits_err1) := by
+  obtain ⟨gs', hgs, _⟩ := go_validateParsable_eq first ts gs h e
+  refine ⟨gs', ?_⟩
+  have hu : parsableUnique first ts = false := by
+    cases hv : parsableUnique first ts
+    · rfl
+    · exfalso
+      have hc := (parsableUnique_iff first ts).mp hv
+      apply hown
+      refine hc (rowText t.ty (r.owner.name == first.name) r.dyn.v, r.owner.name) ?_
+        (rowText t'.ty (r'.owner.name == first.name) r'.dyn.v, r'.owner.name) ?_ htext
+      · unfold modelRows
+        simp only [List.mem_flatMap, List.mem_filter, List.mem_map]
+        exact ⟨t, ⟨ht, by simpa using hp⟩, r, hr, rfl⟩
+      · unfold modelRows
+        simp only [List.mem_flatMap, List.mem_filter, List.mem_map]
+        exact ⟨t', ⟨ht', by simpa using hp'⟩, r', hr', rfl⟩
+  simpa [hu] using hgs
+
 end C12Tie
